@@ -40,6 +40,7 @@ pub struct Pattern {
     src: String,
     anchored_regex: Regex,
     prefix_regex: Regex,
+    case_insensitive: bool,
 }
 
 impl FromStr for Pattern {
@@ -93,6 +94,7 @@ impl Pattern {
                 src: pattern,
                 anchored_regex,
                 prefix_regex: prefix_regex.unwrap(),
+                case_insensitive: opts.case_insensitive,
             }),
             Err(e) => Err(PatternError {
                 input: pattern,
@@ -285,7 +287,12 @@ impl Add<Pattern> for Pattern {
     type Output = Pattern;
 
     fn add(self, rhs: Pattern) -> Self::Output {
-        Pattern::regex((self.to_string() + &rhs.to_string()).as_str()).unwrap()
+        // keep the case sensitivity of the operands (e.g. a base dir prepended to a
+        // case-insensitive relative pattern must not make it case-sensitive again)
+        let opts = PatternOpts {
+            case_insensitive: self.case_insensitive || rhs.case_insensitive,
+        };
+        Pattern::regex_with((self.to_string() + &rhs.to_string()).as_str(), &opts).unwrap()
     }
 }
 
